@@ -137,12 +137,12 @@ func (s *Sim) checkEvent(ev *eventCtx) {
 	default:
 		return
 	}
-	for k := range required {
+	for _, k := range sortedKeys(required) {
 		if !got[k] {
 			s.violate("C16", "C16.missing-enqueue", fmt.Sprintf("%s-%s", ev.kind, ev.typ), fmt.Sprintf("%s %s of %s did not enqueue %s (enqueued %v)", ev.kind, ev.typ, ev.new.GetName(), k, ev.adds))
 		}
 	}
-	for k := range got {
+	for _, k := range sortedKeys(got) {
 		if !allowed[k] {
 			s.violate("C16", "C16.spurious-enqueue", fmt.Sprintf("%s-%s", ev.kind, ev.typ), fmt.Sprintf("%s %s of %s enqueued unrelated %s", ev.kind, ev.typ, ev.new.GetName(), k))
 		}
